@@ -3,32 +3,26 @@
    (`buggy`) variants used by the `..._refuted` lemmas.  Executable definitions only. *)
 From Coq Require Import List NArith Bool Arith.
 From LMBase Require Import Res ListX.
-From LMIo Require Import IoBase IoNom.
+From LMIo Require Import GenIoAbc IoBase IoNom.
 Import ListNotations.
 
 (* ---------- alphabets (lightmotif::abc) ---------- *)
 
-(* Symbol::from_char followed by as_index, for Dna ("ACTGN") *)
-Definition dna_index (c : N) : option nat :=
-  if N.eqb c 65 then Some 0 else if N.eqb c 67 then Some 1 else if N.eqb c 84 then Some 2
-  else if N.eqb c 71 then Some 3 else if N.eqb c 78 then Some 4 else None.
-
-(* Protein: "ACDEFGHIKLMNPQRSTVWYX" *)
-Definition protein_symbols : list N :=
-  [65; 67; 68; 69; 70; 71; 72; 73; 75; 76; 77; 78; 80; 81; 82; 83; 84; 86; 87; 89; 88]%N.
-
-Fixpoint index_of (c : N) (l : list N) (k : nat) : option nat :=
-  match l with
+(* Symbol::from_char followed by as_index: the first arm of from_ascii (table regenerated
+   from abc.rs by translate/io_abc.py, see GenIoAbc.v) whose byte is [c], like a Rust match *)
+Fixpoint assoc_index (c : N) (tbl : list (N * nat)) : option nat :=
+  match tbl with
   | [] => None
-  | x :: r => if N.eqb x c then Some k else index_of c r (S k)
+  | (b, k) :: r => if N.eqb b c then Some k else assoc_index c r
   end.
 
-Definition protein_index (c : N) : option nat := index_of c protein_symbols 0.
+Definition dna_index (c : N) : option nat := assoc_index c gen_dna_from_ascii.
+Definition protein_index (c : N) : option nat := assoc_index c gen_protein_from_ascii.
 
 (* an alphabet as seen by the parsers: K and the char -> column map *)
 Record alphabet := { aK : nat; aindex : N -> option nat }.
-Definition Dna : alphabet := {| aK := 5; aindex := dna_index |}.
-Definition Protein : alphabet := {| aK := 21; aindex := protein_index |}.
+Definition Dna : alphabet := {| aK := gen_dna_K; aindex := dna_index |}.
+Definition Protein : alphabet := {| aK := gen_protein_K; aindex := protein_index |}.
 
 (* ---------- records ---------- *)
 
@@ -63,8 +57,9 @@ Definition j_counts : parser (list N) :=
 
 Definition j_matrix_column : parser (list N) := p_terminated j_counts p_line_ending.
 
-(* build_matrix(GenericArray [a, c, g, t], &[A, C, G, T]): Err(InvalidData) on rows of
-   different lengths.  Column indices of A, C, G, T in Dna ("ACTGN"): 0, 1, 3, 2. *)
+(* build_matrix(GenericArray [a, c, g, t], symbols): Err(InvalidData) on rows of different
+   lengths.  The column indices (as_index of the elements of `symbols` in parse::matrix) are
+   the generated [map snd gen_jaspar_symbols]; today A, C, G, T in Dna ("ACTGN"): 0, 1, 3, 2. *)
 Fixpoint j_build_loop (K : nat) (cols : list (list N * nat)) (m : list (list N)) : res (list (list N)) :=
   match cols with
   | [] => Ok m
@@ -76,7 +71,8 @@ Fixpoint j_build_loop (K : nat) (cols : list (list N * nat)) (m : list (list N))
   end.
 
 Definition j_build_matrix (a c g t : list N) : res (list (list N)) :=
-  j_build_loop 5 [(a, 0); (c, 1); (g, 3); (t, 2)] (new_matrix 0%N 5 (length a)).
+  j_build_loop (aK Dna) (combine [a; c; g; t] (map snd gen_jaspar_symbols))
+               (new_matrix 0%N (aK Dna) (length a)).
 
 (* parse::matrix.  [buggy = true] is the unrepaired code: unimplemented!() on ragged rows *)
 Definition j_matrix (buggy : bool) : parser (list (list N)) := fun i =>
@@ -174,7 +170,10 @@ Section Reader.
   (* Iterator::next.  [cap] = self.buffer.capacity() at the time of the test
      `self.start > self.buffer.capacity() / 2`: an artefact of Vec growth, left
      arbitrary (see compaction_transparent). *)
-  Definition j_next (cap : nat) (st : jstate) : jstate * res (option (record N)) :=
+  (* [guard]: the n != 0 slice is `&buffer[start..=start + n]` (false) or the guarded
+     `buffer.get(start..=start + n)` falling back to `&buffer[start..]` (true); which one the
+     source has is re-read on every run (GenIoAbc.gen_jaspar_slice_guard) *)
+  Definition j_next_g (guard : bool) (cap : nat) (st : jstate) : jstate * res (option (record N)) :=
     let (r, s') := read_until 62 (jstream st) in
     let n := length r in
     let buf := jbuf st ++ r in
@@ -185,7 +184,9 @@ Section Reader.
         if start <=? length buf then Ok (skipn start buf) else Panic 31      (* &buffer[start..] *)
       else
         if start + n <? length buf then Ok (firstn (n + 1) (skipn start buf)) (* &buffer[start..=start+n] *)
-        else Panic 32 in
+        else if guard
+             then (if start <=? length buf then Ok (skipn start buf) else Panic 31)
+             else Panic 32 in
     match slice with
     | Panic k => (st1, Panic k)
     | Err e => (st1, Err e)
@@ -214,6 +215,9 @@ Section Reader.
               end
         end
     end.
+
+  Definition j_next : nat -> jstate -> jstate * res (option (record N)) :=
+    j_next_g gen_jaspar_slice_guard.
 
   (* what a caller sees: the outcomes of successive next() calls.  [caps k] is the
      capacity oracle of the k-th call.  Stops after End (None); with [stop_err]
